@@ -824,7 +824,7 @@ pub fn run_check(tier: &str) -> i32 {
         property: "C06",
         worker: "e2-c06",
         quick_runs: 3_000,
-        thorough_runs: 60_000,
+        thorough_runs: 300_000,
         level: "exploration",
         rule: "seeded platform directories (files with arbitrary legal names incl. non-UTF-8, sub-directories, symlinks to files/directories, dangling links, missing env dir), buildpack plans / stores / descriptor metadata from nested values, all target-variable combinations; the real buildpack process dumps its context which must equal the supplied model; one in six scenarios re-runs with EIO injected into a seeded position of the calls that read <platform>/env; distinct = distinct (phase, presence, entry-kind set, plan size, store, fault, unrepresentable) cells; non-trivial = at least two env entries or a fired fault",
         assumptions: &[
